@@ -54,7 +54,7 @@ LEVEL = "other"
 EXPLANATION = ("Bounded model checking (Kani/CBMC) of the real freezer_files.rs against a cfg(kani) POSIX model file system: each harness starts from a valid "
                "on-disk layout with symbolic item bytes, performs one operation (or one crash-cut append + re-open) with symbolic indices/cut lengths and "
                "checks the representation invariant and the byte-for-byte clauses; the invariant makes the steps compose to histories of any length.")
-BOUNDS = {"layouts": "quick: 8 harnesses; thorough: every layout with <= 3 items of 1..2 bytes in <= 3 data files (616 harnesses)",
+BOUNDS = {"layouts": "quick: 8 harnesses; thorough: every layout with <= 2 items of 1..2 bytes plus every 3-item layout of 1-byte items, in <= 3 data files (317 harnesses; VERIF_C09_ALL=1 at generation time adds the 3-item layouts with 2-byte items, 610 harnesses)",
           "symbolic": "item bytes, retrieve/truncate index, crash cut lengths of data and index file, missing-new-head flag", "unwind": 6,
           "outside": "snappy compression (switched off by the builder option), LRU eviction below open_files_limit, Freezer wrapper (lock file, tip header), items > 2 bytes, > 4 data files"}
 ASSUMPTIONS = ["model file system verif_fs.rs has POSIX semantics (dup shares offsets, writes at current offset, holes zero-filled)",
